@@ -39,7 +39,7 @@ def impl(c):
         ok2, s2 = alg2.play()
         if ok2:
             fin = common.div_to_list(G, alg2.divisor); rep = common.div_to_list(G, CFLaplacian(d.graph).apply(d, s2))
-            hist.append(["ok", fin, rep])
+            hist.append(["ok", fin, rep, [s2.get_firings(x) for x in names]])
             if len(hist) >= 3 or rng.random() < 0.4: break
             alg2.borrowing_move(names[rng.randrange(n)]); continue        # a hand-made move after a success, then play() again
         hist.append(["fail", s2 is None])
@@ -66,7 +66,10 @@ def judge(c, r, mo):
 def oracle(c, r):
     if r is None or "exc" in r: return {"violates": True, "why": "raised / no answer"}
     o = r["ok"]; m = O.mk(c["G"]); n = len(m); D = c["D"]; why = []
-    if not o["pure"]: why.append("caller's divisor modified")
+    if not o["pure"] or o.get("alias") or not o.get("pure2", True): why.append("caller's divisor modified or aliased by the solver")
+    for h in o.get("session", []):
+        if h[0] == "ok" and len(h) > 3 and (O.lap_apply(m, D, h[3]) != h[1] or min(h[1]) < 0): why.append("session on one solver: script %s applied to %s gives %s, the solver ended on %s" % (h[3], D, O.lap_apply(m, D, h[3]), h[1]))
+        if h[0] == "fail" and not h[1]: why.append("failure reported together with a script")
     # reference greedy run (definition level): borrow at the lowest indebted vertex
     E = list(D); cnt = [0] * n; moves = 0
     while min(E) < 0 and moves < 10 * n:
